@@ -1,3 +1,4 @@
 import PysamlModel.Props.PyTieC06
 #print axioms PyTie.loads_refines
 #print axioms PyTie.scan_refines
+#print axioms PyTie.loads_refines_composed
